@@ -23,6 +23,9 @@ CHECKS = {
  "C06": dict(cat="exploration", tech="bounded-exhaustive enumeration of tables x serialisation options, checked by library round trip and by an independent FITS reader and writer",
    text="Every combination of dimension count 1..9 with pairwise different axis lengths, order pattern, seeded or extreme coefficient values (+-0, denormal, FLT_MAX, inf, NaN payload), default or custom extents, periods or none, 0/1/5/40 auxiliary keys and disk or memory back end is written and read back by the library (C++ and C), compared field by field, parsed by an independent reader that checks the documented layout byte for byte, and re-created by an independent writer that the library must read identically; legacy layouts (single ORDER key, no EXTENTS/PERIOD, integer and double coefficient images) and the ten shipped files (recorded digests) are included.",
    note="trusted: ref/fits_ref.hpp (independent of cfitsio); periods are compared to 1e-13 because cfitsio stores header doubles with 15 digits and the property does not list them as exact", ref="4/C06"),
+ "C07": dict(cat="fault_enumeration", tech="exhaustive single-deviation enumeration over the bytes and structure of valid seed files, each read through every reader entry under ASan/UBSan",
+   text="Three valid files with known HDU boundaries are mutated by every single deviation of a structural alphabet (each header card deleted / duplicated / blanked / renamed / given 12 replacement values, each extension dropped / duplicated / swapped / resized / retargeted, each knot vector made non-finite / descending / inverted / constant / huge, truncation at every block and card edge and +-1 byte around HDU boundaries, every bit-flip class of every header byte and boundary data blocks) plus foreign inputs; each file goes through read_fits_mem, read_fits, the path constructor and both C readers. A failing read must leave an empty object that then loads the valid seed and destructs; a successful read must satisfy the well-formedness predicate and survive a battery of lookups, evaluations at special points, comparison, re-serialisation and permutation in an instrumented build.",
+   note="trusted: ref/fits_ref.hpp for seeds and boundaries; operator new replaced by a throwing one that refuses >2 GiB requests (libasan would abort instead of throwing); single deviations only", ref="4/C07", engine="fault"),
  "C08": dict(cat="fault_enumeration", tech="exhaustive single-fault and crash-prefix enumeration of the real writer's driver-operation history on an in-memory cfitsio I/O driver",
    text="The real write_fits and cfitsio buffer layer run on an in-memory disk registered as a cfitsio driver; the logged operation history (10..400 driver calls for six table shapes from 6 to 300 FITS blocks, incl. header overflow) is the object of enumeration: every operation index x {immediate error, deferred error at flush/close, four short-write lengths} must be reported by an exception (C: non-zero) unless the complete file is on disk, and every crash prefix at operation granularity plus torn final writes at byte granularity (every byte for small files, sector and card edges for large ones) must be rejected or load equal through both the memory and the disk reader. The virtual disk is bound to reality by byte-identity with a real file and by RLIMIT_FSIZE runs of the real disk driver in forked children.",
    note="trusted: the driver model (deferred errors modelled on stdio+ENOSPC), ref/fits_ref.hpp for file regions; single faults only; seek failures not injected", ref="4/C08", engine="fault"),
